@@ -441,6 +441,15 @@ def h2(rep, src, gkv):
                 last = st[-1]["e"] if st and st[-1]["k"] == "expr" else None
                 root, chain = root_and_chain(last) if last else (None, [])
                 first = chain[0] if chain else None
+                for _hop in range(3):  # `let found = self.get(&path).ok_or_else(..); found.unwrap()`: the returned value is derived from the local's initialiser
+                    if first is not None and first["m"] == callee and recv_ok(first["recv"]):
+                        break
+                    rn = path_of(root) if root is not None and root["k"] == "path" and len(root["segs"]) == 1 else None
+                    inits = [l["init"] for l in find(fn.body, "let") if rn and l.get("init") is not None and (l["pat"]["name"] if l["pat"]["k"] == "ident" else (l["pat"]["pat"].get("name") if l["pat"]["k"] == "typed" else None)) == rn]
+                    if len(inits) != 1:
+                        break
+                    root, chain = root_and_chain(inits[0])
+                    first = chain[0] if chain else None
                 if first is None or not (first["m"] == callee and recv_ok(first["recv"])):
                     rep.violation("H2", fn.qual, "the value returned by %s is not derived from %s" % (fn.qual, what), fn.where())
     # backing map
@@ -636,6 +645,9 @@ def h5(rep, src):
                     conds.append(dict(c_, m="is_none" if c_["m"] == "is_some" else "is_some"))
                 elif c_["k"] == "binary" and c_["op"].strip() in ("==", "!="):
                     conds.append(dict(c_, op="!=" if c_["op"].strip() == "==" else "=="))
+        # a guard given by name: `let unresolved_match = *n == name && r.is_none(); if unresolved_match { .. }`
+        named = {l["pat"]["name"]: l["init"] for l in find(f.body, "let") if l["pat"]["k"] == "ident" and l.get("init") is not None}
+        conds = [named.get(path_of(c), c) if c["k"] == "path" and len(c["segs"]) == 1 else c for c in conds]
         atoms = []
         for c in conds:
             st = [c]
@@ -723,10 +735,15 @@ def h6(rep, src):
             if tv is None:
                 break
         root = tv
-        while root is not None and root["k"] in ("mcall", "try"):
-            if root is gets[0]:
-                break
-            root = root["recv"] if root["k"] == "mcall" else root["e"]
+        for _hop in range(3):
+            while root is not None and root["k"] in ("mcall", "try"):
+                if root is gets[0]:
+                    break
+                root = root["recv"] if root["k"] == "mcall" else root["e"]
+            if root is not None and root is not gets[0] and root["k"] == "path" and len(root["segs"]) == 1 and root["segs"][0] in lets:
+                root = lets[root["segs"][0]]  # `let unambiguous = columns.get(..); unambiguous.map(..)`
+                continue
+            break
         if root is not gets[0]:
             rep.violation("H6", key, "the entry kept by last() is not the result of the lookup (`%s`)" % show(tv, 80), f.where())
 
@@ -817,6 +834,11 @@ def h7(rep, src):
             alias_part, dflt = show(q["recv"], 0).replace(" ", ""), show(q["args"][0], 0).replace(" ", "")
         elif q["k"] == "mcall" and q["m"] == "map_or" and len(q["args"]) == 2 and q["args"][1]["k"] == "closure":
             alias_part, dflt = show(q["recv"], 0).replace(" ", "") + ".map(" + show(q["args"][1], 0).replace(" ", "") + ")", show(q["args"][0], 0).replace(" ", "")
+        elif q["k"] == "mcall" and q["m"] == "map_or_else" and len(q["args"]) == 2 and q["args"][1]["k"] == "closure" and q["args"][0]["k"] == "closure" and not q["args"][0]["params"]:
+            d0 = q["args"][0]["body"]
+            while d0["k"] == "block" and len(d0["stmts"]) == 1 and d0["stmts"][0]["k"] == "expr":
+                d0 = d0["stmts"][0]["e"]
+            alias_part, dflt = show(q["recv"], 0).replace(" ", "") + ".map(" + show(q["args"][1], 0).replace(" ", "") + ")", show(d0, 0).replace(" ", "")
         elif q["k"] == "match" or (q["k"] == "if" and q["cond"]["k"] == "letcond" and q.get("else") is not None):
             if q["k"] == "match":
                 scrut, arms = q["e"], [(x["pat"], x["body"]) for x in q["arms"] if not x.get("guard")]
@@ -908,6 +930,10 @@ def h9(rep, src):
             a = top_gets[0]["args"][0]
             while a["k"] == "ref":
                 a = a["e"]
+            if a["k"] == "path" and len(a["segs"]) == 1 and a["segs"][0] not in pn:  # `let path = idents.cloned(); self.0.get(&path)`
+                li = [l["init"] for l in find(f.body, "let") if l["pat"]["k"] in ("ident", "typed") and (l["pat"]["name"] if l["pat"]["k"] == "ident" else l["pat"]["pat"].get("name")) == a["segs"][0] and l.get("init") is not None]
+                if len(li) == 1:
+                    a = li[0]
             arg = show(a, 0).replace(" ", "")
         ok = len(all_gets) == 1 and len(top_gets) == 1 and not loops and len(pn) == 1 and arg == pn[0] + ".cloned()"
         rep.instance("H9", key, {"lookups": [show(m, 60) for m in all_gets], "argument": arg, "single_whole_path_lookup": ok})
